@@ -413,6 +413,17 @@ func targetFlag(p *Program, li leafInsert) (bool, string) {
 		if !g.Truth {
 			continue
 		}
+		if c, isCall := g.Cond.(*ssa.Call); isCall {
+			// the search extracted into a helper: contains(targets, pos)
+			if sc := c.Common().StaticCallee(); sc != nil && p.owns(sc) {
+				if si, vi, ok := membershipHelper(sc); ok && si < len(c.Common().Args) && vi < len(c.Common().Args) {
+					if c.Common().Args[vi] == li.pos && derivesFromTargets(p, c.Common().Args[si], 0, map[ssa.Value]bool{}) {
+						return true, "dominated by a call of " + p.FuncName(sc) + ", which returns true only under (position == an element of the target positions)"
+					}
+				}
+			}
+			continue
+		}
 		phi, ok := g.Cond.(*ssa.Phi)
 		if !ok {
 			continue
@@ -422,6 +433,57 @@ func targetFlag(p *Program, li leafInsert) (bool, string) {
 		}
 	}
 	return false, ""
+}
+
+// membershipHelper recognises  func(s []T, v T) bool  whose every return of the
+// constant true is guarded by an equality between an element of s and v;
+// returns the indexes of the slice and the value parameter.
+func membershipHelper(f *ssa.Function) (int, int, bool) {
+	if f.Blocks == nil || f.Signature.Results().Len() != 1 {
+		return 0, 0, false
+	}
+	if b, ok := f.Signature.Results().At(0).Type().Underlying().(*types.Basic); !ok || b.Kind() != types.Bool {
+		return 0, 0, false
+	}
+	si, vi := -1, -1
+	for i, par := range f.Params {
+		if isSliceT(par.Type()) && si < 0 {
+			si = i
+		} else if _, isBasic := par.Type().Underlying().(*types.Basic); isBasic && vi < 0 {
+			vi = i
+		}
+	}
+	if si < 0 || vi < 0 {
+		return 0, 0, false
+	}
+	sawTrue := false
+	for _, ret := range returnsOf(f) {
+		c, ok := ret.Results[0].(*ssa.Const)
+		if !ok || c.Value == nil {
+			return 0, 0, false // computed result: not the simple search shape
+		}
+		if c.Value.String() != "true" {
+			continue
+		}
+		sawTrue = true
+		guarded := false
+		for _, g := range guardsAt(ret.Block()) {
+			rel, isRel := relOf(g)
+			if !isRel || rel.Op != token.EQL {
+				continue
+			}
+			isElem := func(v ssa.Value) bool {
+				return elemLoadOf(v, func(x ssa.Value) bool { return x == ssa.Value(f.Params[si]) })
+			}
+			if (isElem(rel.X) && rel.Y == ssa.Value(f.Params[vi])) || (isElem(rel.Y) && rel.X == ssa.Value(f.Params[vi])) {
+				guarded = true
+			}
+		}
+		if !guarded {
+			return 0, 0, false
+		}
+	}
+	return si, vi, sawTrue
 }
 
 func flagOnlyUnderTargetEq(p *Program, phi *ssa.Phi, pos ssa.Value, seen map[*ssa.Phi]bool) bool {
